@@ -392,6 +392,12 @@ def c16_case(args):
     tmo = 30000 if tier == "quick" else 300000
     nobl = {"prefix": 0, "announce": 0, "arbitrary": 0}
     t_case = time.time()
+    # thorough tier: the work on one schema shares a wall budget; what is cut off is counted (never silently)
+    budget = None if tier == "quick" else float(os.environ.get("VERIF_C16_SCHEMA_BUDGET_S", "90"))
+    cut = [0]
+
+    def over(k):
+        return budget is not None and time.time() - t_case > k * budget
 
     def must_raise(eng, data, assume, ob_id, what, mk, work=None):
         """decode(data) must raise on every feasible path."""
@@ -402,6 +408,9 @@ def c16_case(args):
                 for pi, (kind, out, pc) in enumerate(it):
                     if res["violations"]:
                         break   # the case is red: no need to enumerate the remaining paths
+                    if over(4):
+                        cut[0] += 1
+                        break
                     oid = f"{ob_id}|path{pi}"
                     if kind == "exc" and isinstance(out, WorkBound):
                         decide(eng, pc, z3.BoolVal(True), prop="C16", ob_id=oid, res=res, known=known,
@@ -420,13 +429,11 @@ def c16_case(args):
         finish_engine(res, eng)
 
     # thorough tier: the instances of one schema (growing length patterns) share a wall budget; what is cut off is counted
-    budget = None if tier == "quick" else float(os.environ.get("VERIF_C16_SCHEMA_BUDGET_S", "90"))
-    skipped = 0
     for ii, inst in enumerate(instances(schema, tier)):
         if _red(res) or res["violations"]:
             break
-        if budget is not None and ii > 0 and time.time() - t_case > budget:
-            skipped += 1
+        if ii > 0 and over(1):
+            cut[0] += 1
             continue
         canon = refspec.canon_bytes(schema, T, inst.value)
         data = _as_symbytes(canon)
@@ -440,8 +447,8 @@ def c16_case(args):
         for k in range(len(data)):
             if _red(res) or res["violations"]:
                 break
-            if budget is not None and ii > 0 and time.time() - t_case > 2 * budget:
-                skipped += 1        # a single long instance: its remaining prefixes
+            if ii > 0 and over(2):
+                cut[0] += 1        # a single long instance: its remaining prefixes
                 break
             def mk(m, wb, k=k):
                 cb = [m.eval(b, model_completion=True).as_long() for b in canon][:k]
@@ -486,9 +493,13 @@ def c16_case(args):
                        work=64 * (nbytes + 8))
             nobl["announce"] += 1
     # (c) arbitrary buffers: whatever decode returns must fit in the bytes that were there, with bounded work
+    t_arb = time.time()
     for n in ((0, 1, 2, 3, 5, 6) if tier == "quick" else (0, 1, 2, 3, 4, 5, 6, 7, 8, 9)):
         if _red(res) or res["violations"]:
             break
+        if n > 3 and budget is not None and time.time() - t_arb > budget:
+            cut[0] += 1            # longer arbitrary buffers of this schema
+            continue
         raw = [z3.BitVec(f"b{i}", 8) for i in range(n)]
         data = _as_symbytes(raw)
         eng = Engine(timeout_ms=tmo, max_paths=3000)
@@ -499,6 +510,9 @@ def c16_case(args):
                 for pi, (kind, out, pc) in enumerate(
                         eng.explore(lambda: _decode_reset(serde, fcp, top, data, 64 * (n + 8)), [])):
                     if res["violations"]:
+                        break
+                    if n > 3 and budget is not None and time.time() - t_arb > 2 * budget:
+                        cut[0] += 1
                         break
                     oid = f"{ob_base}|path{pi}"
 
@@ -534,8 +548,8 @@ def c16_case(args):
             ForkingRange.work = None
         finish_engine(res, eng)
     res["functions"] = sorted(cov.seen)
-    if skipped:
-        res["vacuity"]["C16 instances cut off by the per-schema wall budget (thorough)"] = skipped
+    if cut[0]:
+        res["vacuity"]["C16 explorations cut off by the per-schema wall budget (thorough)"] = cut[0]
     res["sample"] = {"schema": feats["desc"], "obligation_groups": nobl, "paths": res["paths"], "wall_s": round(time.time() - t_case, 2),
                      "queries": res["queries"],
                      "verdicts": {"discharged": res["discharged"], "violations": len(res["violations"])}}
@@ -567,9 +581,10 @@ def run_c16(tier: str) -> int:
         "truncation": "every byte boundary k < len(encoding) of every instance (values symbolic)",
         "length_prefix": "every str / dynamic array of fixed-size elements: announced count symbolic in (L, 2^32) "
                          "subject to 'announced value needs more bytes than the buffer has'",
-        "thorough_wall_budget": "thorough tier only: the instances of one schema share a wall budget (90 s; further instances are "
-                                "skipped, a single instance stops taking prefixes at twice that); the number cut off is reported "
-                                "under vacuity_guards - the first instance of every schema is always complete",
+        "thorough_wall_budget": "thorough tier only: the work on one schema shares a wall budget (90 s: further instances are "
+                                "skipped; at twice that an instance stops taking prefixes, at four times a single exploration is "
+                                "abandoned; arbitrary buffers above 3 bytes have their own 90 s); the number of cut-offs is reported "
+                                "under vacuity_guards; arbitrary buffers up to 3 bytes are never cut",
         "arbitrary_buffers": "n symbolic bytes, n in {0,1,2,3,5,6} (quick) / {0..9} (thorough); "
                              "work budget 64*(n+8) loop iterations",
     })
